@@ -155,11 +155,16 @@ pub struct EnvPlan {
     /// `try_clone`d descriptor) instead of each having its own
     #[serde(default)]
     pub shared_pos: bool,
+    /// Where a source handed to `Reader::new` stands before the first call (a reader recovered with
+    /// `into_inner` and wrapped again, a descriptor somebody else has read from): 0 = start,
+    /// n > 0 = byte n (possibly past the end), n < 0 = -(n+1) bytes before the end.
+    #[serde(default)]
+    pub src_start: i64,
 }
 
 impl EnvPlan {
     pub fn whole() -> EnvPlan {
-        EnvPlan { modes: vec![IoMode::Whole], stream: 0, faults: vec![], crash: None, buffered: false, shared_pos: false }
+        EnvPlan { modes: vec![IoMode::Whole], stream: 0, faults: vec![], crash: None, buffered: false, shared_pos: false, src_start: 0 }
     }
     pub fn is_whole(&self) -> bool {
         self.modes.iter().all(|m| *m == IoMode::Whole)
@@ -315,7 +320,15 @@ impl Env {
     }
 
     pub fn new_source(&self, bytes: Vec<u8>) -> SimFile {
-        SimFile::create(self, Role::Source, bytes)
+        let start = self.0.borrow().plan.src_start;
+        let len = bytes.len() as u64;
+        let f = SimFile::create(self, Role::Source, bytes);
+        if start != 0 {
+            let pos = if start > 0 { start as u64 } else { len.saturating_sub((-(start + 1)) as u64) };
+            f.pos_cell.set(pos);
+            self.0.borrow_mut().fx.inc("source.opened_at_nonzero_position");
+        }
+        f
     }
 
     /// A sink that keeps what it is given in extents and, while `hole_big_writes` is set, turns
